@@ -3152,10 +3152,34 @@ class MsgbEval:
             pv = self.ev(tu, kids(e)[0], env, depth)
             return ("mem", pv) if _sym(pv) and pv[1] == "buf" else ("unk",)
         if k == "ArraySubscriptExpr":
+            cell = self.member_cell(tu, e, env, depth)
+            if cell is not None:
+                return cell
             a, b = kids(e)
             pv = _vadd(self.ev(tu, a, env, depth), self.ev(tu, b, env, depth))
             return ("mem", pv) if _sym(pv) and pv[1] == "buf" else ("unk",)
         return ("unk",)
+
+    def member_cell(self, tu, s, env, depth):
+        """`m->arr[k]` with arr an ARRAY member of the message header other than the data area (the control buffer
+        cb[] of struct msgb): a cell of the message object of its own, like a scalar member - it travels with the
+        message through queues and is zero after the allocation.  None: `s` is not such an expression."""
+        a, b = kids(s)
+        sa = strip(a)
+        if kind(sa) != "MemberExpr":
+            return None
+        ext = array_extent(sa.get("type", {}).get("qualType"))
+        if ext is None:
+            return None
+        inner = self.lv(tu, sa, env, depth)
+        if inner[0] != "field" or inner[1] == "_data":
+            return None
+        i = self.ev(tu, b, env, depth)
+        if not isinstance(i, int):
+            return ("unk",)
+        if not 0 <= i < ext:
+            raise AnalysisError("msgb evaluation: `%s` evaluated with index %d outside its extent %d" % (ctext(s), i, ext))
+        return ("field", "%s[%d]" % (inner[1], i)) + tuple(inner[2:])
 
     def load(self, loc, env):
         if loc[0] == "var":
@@ -4191,6 +4215,12 @@ def r12_rx_fold(L, tu, mtu, tag, size, K):
          [(d1, []), (d0, [1, 2, 3]), (d1, []), (d2, [K.esc]), (d0, []), (d2, [0x42])], noise),
         ("longest promised payload (%d octets) followed by a short message" % (size - 1),
          [(d1, [(7 * i + 1) & 0xFF for i in range(size - 1)]), (d0, [0x55])], []),
+        # `all inter-frame garbage not containing the flag octet`: the escape octet as the LAST noise octet in front of
+        # an opening flag, and in the middle of the noise (followed by an ordinary octet / by itself)
+        ("flag-free noise that ends in the escape octet in front of every frame",
+         [(d1, [0x41]), (d0, [K.esc, 0x42]), (d2, [])], [o for o in (0x41, 0x00, K.esc) if o != K.flag]),
+        ("flag-free noise with escape octets in its middle in front of every frame",
+         [(d2, [0x43, K.flag]), (d1, [])], [o for o in (K.esc, K.flag ^ K.xor, K.esc, K.esc, 0x41) if o != K.flag]),
     ) + tuple(("message on DLCI %d, whose handler %s() registered itself, between messages on other DLCIs" % (d, INIT_FN),
                [(d0, [0x42]), (d, [0x41, K.flag, 0x00]), (d2, [])], []) for d in own)
 
@@ -4216,12 +4246,14 @@ def r12_rx_fold(L, tu, mtu, tag, size, K):
              "DLCI exactly once, with its DLCI and payload, in order" % (tag, title),
              "; ".join(show(*w) for w in want), "; ".join(show(*g) for g in ev.delivered) or "no handler call",
              ev.delivered == want, tu.line(tu.func(RX_FN)))
-    L.floor(R, "witness streams folded through %s (%s build)" % (RX_FN, tag), len(witnesses), 5)
+    L.floor(R, "witness streams folded through %s (%s build)" % (RX_FN, tag), len(witnesses), 7)
 
 
 # ------------------------------------------- C06.R13 fold of the transmitter over witness messages
 
 ENQ_FN, DEQ_FN = "msgb_enqueue", "msgb_dequeue"
+PROP_FLAG = 0x7E            # `flag 0x7E`: the frame delimiter named by the property statement
+PROP_ESC = 0x7D             # `escape 0x7D`
 
 
 class TxFold(RxFold):
@@ -4250,6 +4282,9 @@ class TxFold(RxFold):
             elif self.groot(s, env):
                 return RxFold.lv(self, tu, e, env, depth)
             else:
+                cell = self.member_cell(tu, s, env, depth)
+                if cell is not None:
+                    return cell
                 a, b = kids(s)
                 pv = _vadd(self.ev(tu, a, env, depth), self.ev(tu, b, env, depth))
             if _sym(pv) and pv[1] == "buf":
@@ -4372,6 +4407,28 @@ def fold_start(cls, tu, mtu, anchors):
     return ev
 
 
+def raw_in_frame(run):
+    """What one message pulled until idle looks like between its flags: None when the octets are not one frame
+    opened and closed by the flag 0x7E of the property (the delivery obligation decides that), else '' or the first
+    octet that is a flag, or a zero octet not announced by the escape octet 0x7D."""
+    if len(run) < 2 or run[0] != PROP_FLAG or run[-1] != PROP_FLAG:
+        return None
+    a, b = 0, len(run) - 1
+    while a + 1 < b and run[a + 1] == PROP_FLAG:
+        a += 1          # repeated flags in front of / behind a frame are inter-frame fill
+    while b - 1 > a and run[b - 1] == PROP_FLAG:
+        b -= 1
+    esc = False
+    for i in range(a + 1, b):
+        o = run[i]
+        if o == PROP_FLAG:
+            return "octet %d between the flags is a flag" % (i - a)
+        if o == 0x00 and not esc:
+            return "octet %d between the flags is an unescaped 00" % (i - a)
+        esc = (o == PROP_ESC) and not esc
+    return ""
+
+
 def r13_tx_fold(L, tu, mtu, tag, size):
     """C06.R13 - the transmitter, run.  Decides the clause `any sequence of messages queued for transmission and
     fed octet by octet into a receiver is delivered ... with identical DLCI and payload, exactly once each` for
@@ -4414,7 +4471,14 @@ def r13_tx_fold(L, tu, mtu, tag, size):
         ("messages in buffers from %s() with exactly %d (all the header needs) and %d octets of headroom, then one from %s()"
          % (HEADROOM_ALLOC, HDR_OCTETS, HDR_OCTETS + 1, RX_ALLOC_FN),
          [(d1, [0x41, 0x7E], HDR_OCTETS), (d0, [0x00, 0x42, 0x43], HDR_OCTETS + 1), (d2, [0x55])])]
-    nroom = 0
+    # DLCIs whose NUMBER is an octet the frame format has to escape (the address octet is framed like the payload),
+    # with payloads free of such octets: whatever decides about escaping has to look at the header as well
+    special = [d for d in (0x7D, 0x7E, 0x00) if d in free]
+    if special:
+        witnesses.append(("messages with payloads free of flag / escape / zero octets on DLCI %s, whose number needs escaping"
+                          % ", ".join(hx(d) for d in special),
+                          [(d, [0x41 + i, 0x51 + i][:2 - i % 2]) for i, d in enumerate(special)] + [(d1, [0x55])]))
+    nroom, nframes = 0, 0
 
     def show(h, d, p):
         body = " ".join("??" if o is None else o if isinstance(o, str) else "%02X" % o for o in p[:8])
@@ -4426,10 +4490,11 @@ def r13_tx_fold(L, tu, mtu, tag, size):
         for d in sorted({m[0] for m in msgs} - set(own)):
             if rx.call(REG, [d, ("@", "handler", d)]) != 0:
                 raise AnalysisError("transmit fold: %s(%d, .) refused" % (REG, d))
-        pulled = 0
+        pulled, raw = 0, []
         try:
             for d, p, *hr in msgs:
                 tx.envs = {}
+                run = []
                 if hr:
                     # a caller's own buffer: msgb_alloc_headroom(payload + headroom, headroom, .), evaluated
                     m = tx.call(HEADROOM_ALLOC, [len(p) + hr[0], hr[0], 0])
@@ -4458,7 +4523,14 @@ def r13_tx_fold(L, tu, mtu, tag, size):
                     if not isinstance(tx.out, int):
                         raise AnalysisError("transmit fold: %s() reports an octet without storing one (C06.R6)" % PULL)
                     pulled += 1
+                    run.append(tx.out)
                     rx.step(tx.out)
+                bad = raw_in_frame(run)
+                if bad is not None:
+                    nframes += 1
+                    if bad:
+                        raw.append("message (dlci %d, [%s]) goes out as %s: %s" % (
+                            d, " ".join("%02X" % o for o in p[:8]), " ".join("%02X" % o for o in run[:12]), bad))
                 # a transmitter that is still not idle has sent more than every octet escaped plus flags:
                 # what it produced so far is compared below
         except _Abort as e:
@@ -4470,13 +4542,17 @@ def r13_tx_fold(L, tu, mtu, tag, size):
              ("; ".join(show(*g) for g in rx.delivered) or "no handler call") + " (%d octets pulled%s)"
              % (pulled, "".join("; " + n for n in tx.narrowed[:3]) if rx.delivered != want else ""),
              rx.delivered == want, tu.line(tu.func(PULL)))
+        L.ob(R, F, PULL, "transmit fold [%s]: %s -- between the opening and the closing flag of every frame pulled there is no "
+             "unescaped flag (0x7E) or zero octet" % (tag, title), "none", "; ".join(raw[:3]) or "none", not raw,
+             tu.line(tu.func(PULL)))
     L.floor(R, "witness message lists folded through %s / %s (%s build)" % (SEND, PULL, tag), len(witnesses), 5)
+    L.floor(R, "pulled frames examined octet by octet between their flags (%s build)" % tag, nframes, 10)
+    L.floor(R, "witness DLCIs whose number itself needs escaping (%s build)" % tag, len(special), 1)
     L.floor(R, "witness messages with just the headroom the header needs (%s build)" % tag, nroom, 2)
 
 
 # ------------------------------------------- C06.R14 fold of the transmitter over interleaved histories
 
-PROP_FLAG = 0x7E            # `flag 0x7E`: the frame delimiter named by the property statement
 
 
 def _mid(v, what):
@@ -4537,6 +4613,9 @@ class MultiTx(TxFold):
             if k == "UnaryOperator":
                 pv = self.ev(tu, kids(s)[0], env, depth)
             else:
+                cell = self.member_cell(tu, s, env, depth)
+                if cell is not None:
+                    return cell
                 a, b = kids(s)
                 pv = _vadd(self.ev(tu, a, env, depth), self.ev(tu, b, env, depth))
             if _mid(pv, "buf") is not None:
